@@ -315,6 +315,9 @@ def classify_unwrap_exit(run, r, be, op):
             return ("verification", "")
         if _pure_length_test(c):
             return ("length", "")          # an explicit comparison of the blob's length with a constant
+        from errclass import static_edge
+        if g is not None and static_edge(run, c, g["value"]) is False:
+            return ("statically-impossible", "")      # e.g. `if tag.len() != 48` on a 48-byte library output
         if op == "pbkw" and g is not None:
             import paramcanon
             atoms = paramcanon.canon(c, g["value"], g.get("arms"))
